@@ -52,6 +52,14 @@ func run(spec *rules.PropSpec, tier, repo, verif string, seed int, start time.Ti
 		}
 	}()
 	m, err := core.Load(repo, nil)
+	if err != nil && os.Getenv("VERIF_LOAD") == "" {
+		// export data unavailable? fall back to type-checking the dependencies from source
+		os.Setenv("VERIF_LOAD", "allsyntax")
+		m, err = core.Load(repo, nil)
+	}
+	if os.Getenv("VERIF_TIMING") != "" {
+		fmt.Fprintf(os.Stderr, "timing: load %.1fs\n", time.Since(start).Seconds())
+	}
 	if err != nil {
 		fmt.Fprintf(os.Stderr, "LOAD-FAILED property=%s %v\n", spec.ID, err)
 		return 2
@@ -71,8 +79,12 @@ func run(spec *rules.PropSpec, tier, repo, verif string, seed int, start time.Ti
 	}
 	rep := core.NewReport(spec.ID)
 	ctx := &rules.Ctx{M: m, Gen: gen, R: rep, Tier: tier, Prop: spec.ID}
-	for _, rule := range spec.Rules {
+	for i, rule := range spec.Rules {
+		t0 := time.Now()
 		rule(ctx)
+		if os.Getenv("VERIF_TIMING") != "" {
+			fmt.Fprintf(os.Stderr, "timing: rule#%d %.1fs\n", i, time.Since(t0).Seconds())
+		}
 	}
 	extra := map[string]any{
 		"packages_loaded":    len(m.Pkgs),
